@@ -31,6 +31,9 @@ def run(ctx):
     fk = "<AggregateSignature<C> as TryFrom<&[Signature<C>]>>::try_from"
     R.check_min_len(ctx, "E4.len", P, fk, "sigs", 2, extra_blocks=lambda fn, ev: [b for b, d in ev.switch.items() if any(s.op == "index" for s in subterms(d))])
     R.check_same_scheme_guard(ctx, "E4.scheme", P, fk, "sigs")
+    from . import spec as SP_
+
+    SP_.check_same_scheme_semantics(ctx, "E2.same-scheme", P)
     f = P.fns.get(fk)
     if f is not None:
         accs = F.accumulators(P, f)
@@ -43,6 +46,9 @@ def run(ctx):
         adds0 = [s for s in ev.sites.values() if s.callee[0] == "Add::add" and any((x.op == "index" and B._const_int(x.a[1]) == 0) or (x.op == "cidx" and x.a[1] == 0) for x in subterms(s.args[1]))]
         okc = cov == ["all"] or (cov == ["tail1"] and len(adds0) >= 1)
         ctx.ob("E4.accumulate", fk + "/covers-all", okc, "loop iterates %s and sigs[0] is added %d time(s) on the exits" % (cov, len(adds0)), where=where(f))
+        if len(cov) == 1 and cov[0] in ("all", "tail1"):
+            nso = F.check_sum_once(ctx, "E4.sum-once", P, f, "sigs", "AggregateSignature", cov[0])
+            ctx.floor("E4.sum-once", "schemes whose aggregate is the once-each sum", nso, 3)
         check_arm_purity(ctx, "E2-A", P, [f])
         SP.check_variant_preserved(ctx, "E2.variant", P, f, "AggregateSignature")
         allow_skip = {(fk, "skip"): "skip(1): element 0 is added separately on the exits"} if (cov == ["tail1"] and len(adds0) >= 1) else {}
